@@ -3,13 +3,15 @@ CONSTANTS
   P = 9
   NPar = 2
   ErFrom = 3
-  TocFrom = 7
+  LogStart = 3
+  LogEnd = 5
+  ParStart = 6
   NAtt = 2
   MaxFaults = 1
   FaultBy = {"sender", "driver"}
   MaxPings = 2
   UseSync = FALSE
   Closer = FALSE
-  Defects = {"closeReread", "dispReread", "dispStalePk", "errInSender", "errReread", "errStateRace", "openReread", "pingSelfJoin", "sendNoFinally", "staleFetcher", "syncOpenNoWake", "updDoubleRelease"}
+  Defects = {"closeReread", "dispReread", "dispStalePk", "errInSender", "errReread", "errStateRace", "openReread", "pingSelfJoin", "stopJoins", "sendNoFinally", "staleFetcher", "syncOpenNoWake", "updDoubleRelease"}
 INVARIANT HistoryOK
 CHECK_DEADLOCK FALSE
